@@ -930,6 +930,39 @@ pub fn suite_suffix(out: &mut Out, tier: &str, rng: &mut Rng) {
         };
         out.emit(json!({"op": "decode_suffix", "in": bytes_json(&b), "suffix": bytes_json(&suffix), "opts": gen_opts(rng), "entry": "validate"}));
     }
+    // what typically follows a message in a buffer: padding (runs of 00 / ff of every length 1..=24, and the
+    // amounts that fill a frame to 18, 46, 60 or 64 octets), a copy of the message itself, another message with
+    // the same ids, an AVP record, a lone flags word -- behind a ZLB, a Hello, longer control messages and data
+    // messages with a Length
+    let zlb = enc_control(&json!({"k": "Control", "length": 0, "tunnel_id": 9, "session_id": 0, "ns": 1, "nr": 2, "avps": []}));
+    let hello = enc_control(&json!({"k": "Control", "length": 0, "tunnel_id": 9, "session_id": 0, "ns": 1, "nr": 2, "avps": [{"k": "MessageType", "f": ["Hello"]}]}));
+    let mut bases: Vec<Vec<u8>> = vec![zlb.clone(), hello.clone()];
+    for _ in 0..counts(tier, 4, 60) {
+        bases.push(declared_message(rng));
+    }
+    for b in bases.iter() {
+        let mut sfx: Vec<Vec<u8>> = Vec::new();
+        for n in 1..=24usize {
+            sfx.push(vec![0u8; n]);
+            if n % 3 == 0 || tier == "thorough" {
+                sfx.push(vec![0xffu8; n]);
+            }
+        }
+        for frame in [18usize, 46, 60, 64] {
+            if frame > b.len() {
+                sfx.push(vec![0u8; frame - b.len()]);
+            }
+        }
+        sfx.push(b.clone());
+        sfx.push(zlb.clone());
+        sfx.push(hello.clone());
+        sfx.push(enc_avp(&gen_avp(rng, 8)));
+        sfx.push(vec![0x13, 0x20]);
+        sfx.push(b[..b.len().min(12)].to_vec());
+        for x in sfx {
+            out.emit(json!({"op": "decode_suffix", "in": bytes_json(b), "suffix": bytes_json(&x), "opts": [true, true, true], "entry": "validate"}));
+        }
+    }
 }
 
 pub fn suite_concat(out: &mut Out, tier: &str, rng: &mut Rng) {
